@@ -12,6 +12,7 @@ import pymbolic.primitives as p
 from pytato.array import Array, ArrayOrScalar, IndexLambda, ShapeType
 from pytato.diagnostic import UnknownIndexLambdaExpr
 from pytato.scalar_expr import (
+    INT_CLASSES,
     SCALAR_CLASSES,
     IdentityMapper,
     Reduce,
@@ -263,7 +264,8 @@ def _is_normal_reduce_expr(expr: IndexLambda) -> bool:
             seen_redn_vars.add(idx.name)
 
             lbound, ubound = expr.expr.bounds[idx.name]
-            if (not isinstance(lbound, int) or not isinstance(ubound, int)):
+            if (not isinstance(lbound, INT_CLASSES)
+                    or not isinstance(ubound, INT_CLASSES)):
                 raise NotImplementedError("Parametric bound expressions not"
                                           " supported.")
             if not are_shape_components_equal(lbound, 0):
